@@ -77,7 +77,7 @@ def shared_resolver(argname, with_default):
 
 ROUTES = ("register_resolver", "decorator", "decorator-star",
           "register_default_resolver", "register_subscription",
-          "schema-attribute", "type-attribute")
+          "schema-attribute", "type-attribute", "merge_resolvers")
 
 
 def _verdict(schema, via="validate"):
@@ -305,6 +305,12 @@ def run_machine(draws, state, tier):
                         live.register_subscription(t, f, fn,
                                                    allow_override=True)
                         model["subs"][(t, f)] = fn
+                    elif route == "merge_resolvers":
+                        from py_gql.schema.resolver_map import ResolverMap
+                        rm = ResolverMap()
+                        rm.register_resolver(t, f, fn)
+                        live.merge_resolvers(rm, allow_override=True)
+                        model["fields"][(t, f)] = fn
                     elif route == "schema-attribute":
                         live.default_resolver = fn
                         model["global"] = fn
@@ -388,7 +394,7 @@ def evidence_meta():
     return {
         "rule": (
             "one case = one process lifetime running either a history of "
-            "2..26 resolver (re)assignments through the 7 documented routes "
+            "2..26 resolver (re)assignments through the 8 documented routes "
             "interleaved with validate() / process_graphql_query checks and "
             "shuffled rebuilds, or a labelled invalid document built under 3 "
             "definition orders; distinct = distinct operation sequence; "
